@@ -31,7 +31,7 @@ static long doop(OggVorbis_File *vf,const char *tk,float ***pp,int *bs){
 int main(int argc,char **argv){
   FILE *f=fopen(argv[1],"r"); char *line; unsigned char *file=NULL; long n=0; char id[64]="";
   if(!f)return 2;
-  signal(SIGALRM,on_alarm);
+  vc_watch_init(on_alarm);
   long scen=0,faulted_calls=0,recovered=0,openfails=0; int bad=0;
   while((line=vc_getline(f))){
     if(!strncmp(line,"case ",5)){
@@ -42,7 +42,7 @@ int main(int argc,char **argv){
     if(strncmp(line,"sc ",3)){ free(line); continue; }
     char *save; char *t=strtok_r(line," ",&save); char *name=strtok_r(NULL," ",&save); int kind=atoi(strtok_r(NULL," ",&save));
     int persist=atoi(strtok_r(NULL," ",&save)); long k=atol(strtok_r(NULL," ",&save)); (void)t;
-    scen++; alarm(30);
+    scen++; vc_watch(30);
     memsrc ms={0}; ms.b=file; ms.n=n; ms.seekable=1;
     OggVorbis_File vf; ov_callbacks cb={ms_read,ms_seek,ms_close,ms_tell};
     int atopen=!strcmp(name,"open");
@@ -58,7 +58,7 @@ int main(int argc,char **argv){
       ov_clear(&vf);    /* clearing again is harmless */
       if(ms.closes!=0){ printf("prop noclose FAIL ov_clear after failed open closed the source\n"); bad++; }
       if(kind==3&&orc){ printf("prop shortread FAIL one-byte reads made open fail rc=%d k=%ld\n",orc,k); bad++; }
-      alarm(0); free(line); continue;
+      vc_watch(0); free(line); continue;
     }
     /* fault window over the listed ops */
     if(!atopen){ ms.ncalls=0; ms.fault_kind=kind; ms.fault_persist=persist; ms.fault_at=k; }
@@ -101,7 +101,7 @@ int main(int argc,char **argv){
     if(ms.closes){ printf("prop noclose FAIL before ov_clear closes=%ld\n",ms.closes); bad++; }
     ov_clear(&vf);
     if(ms.closes!=1){ printf("prop closeonce FAIL closes=%ld\n",ms.closes); bad++; }
-    alarm(0); free(line);
+    vc_watch(0); free(line);
   }
   if(file){ printf("S scenarios=%ld faulted_calls=%ld recovered=%ld openfails=%ld\n",scen,faulted_calls,recovered,openfails); if(!bad)printf("prop faults ok\n"); }
   return 0;
